@@ -19,7 +19,8 @@ EXTRACT = ["C15"]
 BINS = ["c15"]
 NEEDS_CICADA = True
 ALLOWED_AXIOMS = []
-PINNED = ["C15_args", "C15_args_newline_refuted", "C15_func_status_refuted", "C15_sete_flat",
+PINNED = ["C15_args", "C15_args_newline_refuted", "C15_func_status", "C15_sete_flat", "C15_sete_calls_instances",
+          "C15_sete_source_refuted",
           "C15_sete_nested_refuted", "C15_full", "C15_refuted"]
 TRUSTED = [
     "Coq 8.16.1 kernel (coqc; coqchk in thorough); vm_compute in Example witnesses and in C15_sete_nested_refuted",
@@ -27,13 +28,17 @@ TRUSTED = [
     "extraction loop of run_script and of the status rules (coq/theories/Model/Args.v); the two regexes are modelled as "
     "hand-written first-match functions; tied by L1 (positional parameters) and L2 (function table, statuses)",
     "Model/Script.v (run_exp with exit_on_error) for the set -e statements, tied by C14's layers and by L2 here",
+    "Model/ShellScript.v: exit_on_error and the function table as shell state threaded through run_script / run_lines / "
+    "try_run_func / source with the reset at the end of run_script; extracted and used as the reference of layer L2b "
+    "(set -e x function calls x source); only computed instances are proved about it (C15_sete_calls_instances)",
     "extraction: ExtrOcamlBasic only; OCaml 4.13.1; ocaml/c15/drv.ml",
     "harness/src/bin/c15.rs, helpers/hp.c, drive/c15.py (the L2 reference for functions / source / exit is the python "
     "oracle in this file, not an extracted model)",
 ]
 ASSUMES = [
     "the line-continuation folding of run_script, file lookup, `source` and `exit` builtins are not modelled in Coq; "
-    "they are exercised by L2 only",
+    "they are exercised by L2 only; THE L2 REFERENCE FOR FUNCTIONS / SOURCE CHAINS / EXIT IS A PYTHON ORACLE (drive/c15.py), "
+    "not an extracted model; L2b's reference is the extracted Model/ShellScript.v plus the python property oracle ref_sete",
     "C15_args speaks about one token; tokenising the line before and re-rendering it after (parse_line, tokens_to_line) "
     "is C01/C16's subject -- generated script lines use plain words and single blanks",
 ]
@@ -112,11 +117,10 @@ def gen_l2(ctx, hp, workdir_token):
                     cases.append(dict(files={"main.sh": text}, main="main.sh", args=[], expect=(good, 0), known=None, tag="func-ok"))
                 else:
                     bad = good[:3] + [["@x0", "probe", "s0"]]
-                    cases.append(dict(files={"main.sh": text}, main="main.sh", args=[], expect=(good, 0),
-                                      known=("func-status-zero", (bad, 0)), tag="func-status"))
+                    cases.append(dict(files={"main.sh": text}, main="main.sh", args=[], expect=(good, 0), known=None, tag="func-status"))
     # function call as the last command: status of the script
     cases.append(dict(files={"main.sh": "function f {\n%s\n}\nf\n" % H(4, "fm")}, main="main.sh", args=[],
-                      expect=([["@x4", "fm"]], 4), known=("func-status-zero", ([["@x4", "fm"]], 0)), tag="func-last"))
+                      expect=([["@x4", "fm"]], 4), known=None, tag="func-last"))
     # (c) source: functions, variables persist; chain to depth 3; status of source = last command of the file
     for depth in (1, 2, 3):
         for st in (0, 5):
@@ -183,6 +187,113 @@ def gen_l2(ctx, hp, workdir_token):
         cases.append(dict(files={"main.sh": text}, main="main.sh", args=[], expect=(good, 2),
                           known=("sete-nested-body", (bad, 0)), tag="sete-" + kind))
     return cases
+
+
+def gen_sete_family(ctx, hp, count):
+    """flat scripts combining `set -e` (at every position of the main script), function definitions and calls before
+    and after it, `source` of files (which may define functions and call them) and a failing command at top level /
+    inside a function / inside a sourced file.  Returns dicts(files, items) ; the reference is ref_sete."""
+    rng = ctx.rng
+    out = []
+    for _ in range(count):
+        k = [0]
+
+        def ext(p_fail):
+            k[0] += 1
+            st = rng.choice([1, 3, 7]) if rng.random() < p_fail else 0
+            return ("ext", st, "m%d" % k[0])
+        nfun = rng.randint(0, 3)
+        funs = []
+        for i in range(nfun):
+            body = []
+            for _ in range(rng.randint(1, 3)):
+                if i > 0 and rng.random() < 0.3:
+                    body.append(("call", "f%d" % rng.randrange(i)))
+                else:
+                    body.append(ext(0.25))
+            funs.append(("f%d" % i, rng.choice(["function f%d {", "function f%d() {", "function f%d ()  {"]) % i, body))
+        libs = []
+        for j in range(rng.randint(0, 2)):
+            items = []
+            if rng.random() < 0.5:
+                items.append(("def", "g%d" % j, [ext(0.2)]))
+            for _ in range(rng.randint(1, 3)):
+                r = rng.random()
+                if r < 0.25 and nfun:
+                    items.append(("call", "f%d" % rng.randrange(nfun)))
+                elif r < 0.4 and items and items[0][0] == "def":
+                    items.append(("call", "g%d" % j))
+                else:
+                    items.append(ext(0.2))
+            libs.append(("lib%d.sh" % j, items))
+        main = []
+        for _ in range(rng.randint(3, 7)):
+            r = rng.random()
+            if r < 0.3 and nfun:
+                main.append(("call", "f%d" % rng.randrange(nfun)))
+            elif r < 0.45 and libs:
+                main.append(("source", rng.randrange(len(libs))))
+            else:
+                main.append(ext(0.3))
+        if rng.random() < 0.85:
+            main.insert(rng.randint(0, len(main)), ("sete",))
+        out.append(dict(funs=funs, libs=libs, main=main))
+    return out
+
+
+def render_sete(c, hp):
+    def line(it):
+        if it[0] == "ext":
+            return "%s @x%d %s" % (hp, it[1], it[2])
+        if it[0] == "call":
+            return it[1]
+        if it[0] == "source":
+            return "source lib%d.sh" % it[1]
+        if it[0] == "sete":
+            return "set -e"
+        if it[0] == "def":
+            return "function %s {\n%s\n}" % (it[1], "\n".join(line(x) for x in it[2]))
+    files = {}
+    for name, items in c["libs"]:
+        files[name] = "\n".join(line(x) for x in items) + "\n"
+    t = ""
+    for name, head, body in c["funs"]:
+        t += head + "\n" + "\n".join("  " + line(x) for x in body) + "\n}\n"
+    t += "\n".join(line(x) for x in c["main"]) + "\n"
+    files["main.sh"] = t
+    return files
+
+
+class _Stop(Exception):
+    pass
+
+
+def ref_sete(c):
+    """the property: after `set -e` the first failing command -- at top level, in a function body or in a sourced
+    file -- ends the script with its status; otherwise the status is that of the last command executed."""
+    st = {"eoe": False, "trace": [], "last": 0, "funcs": {n: b for n, _, b in c["funs"]}}
+
+    def run(items):
+        for it in items:
+            if it[0] == "ext":
+                st["trace"].append(["@x%d" % it[1], it[2]])
+                st["last"] = it[1]
+                if it[1] != 0 and st["eoe"]:
+                    raise _Stop()
+            elif it[0] == "sete":
+                st["eoe"] = True
+                st["last"] = 0
+            elif it[0] == "def":
+                st["funcs"][it[1]] = it[2]
+            elif it[0] == "call":
+                run(st["funcs"][it[1]])
+            elif it[0] == "source":
+                run(c["libs"][it[1]][1])
+    try:
+        run(c["main"])
+    except _Stop:
+        pass
+    return st["trace"], st["last"]
 
 
 def run(ctx, res):
@@ -290,6 +401,57 @@ def run(ctx, res):
                                 expected="trace=%r status=%r" % (exp_t, exp_rc), observed="trace=%r status=%r" % (log, rc),
                                 stderr=err[-400:], failing_input=True,
                                 note="script arguments / functions / source / exit status do not behave as the property states")
+        # ---------------- L2b: set -e x functions x source (model = extracted Model/ShellScript.v)
+        fam = gen_sete_family(ctx, hp, 600 if ctx.thorough else 120)
+        ffiles = [render_sete(c, hp) for c in fam]
+        mlines = []
+        for ff in ffiles:
+            flds = ["shrun", C.enc("main.sh")]
+            for nm, tx in sorted(ff.items()):
+                flds += [C.enc(nm), C.enc(tx)]
+            mlines.append("\t".join(flds))
+        mo_s = C.run_model(ctx.model["C15"], C.write_cases("c15_shrun.txt", mlines))
+
+        def one_s(ix):
+            d = os.path.join(work, "s%d" % ix)
+            os.makedirs(d)
+            rc, log, err = run_script(ctx.cicada, ffiles[ix], "main.sh", [], d)
+            shutil.rmtree(d, ignore_errors=True)
+            return rc, log, err
+        with ThreadPoolExecutor(max_workers=C.NCPU) as ex:
+            souts = list(ex.map(one_s, range(len(fam))))
+        res.count("L2b_sete_function_source_runs", len(fam))
+        nviol = 0
+        for ix, (rc, log, err) in enumerate(souts):
+            c = fam[ix]
+            ptrace, pst = ref_sete(c)
+            obs = "trace=[%s] status=%s" % (";".join(",".join(a) for a in log), rc)
+            prop = "trace=[%s] status=%s" % (";".join(",".join(a) for a in ptrace), pst)
+            model = mo_s[ix]
+            res.nontrivial("l2b:" + prop[:200])
+            has_sete_then_source = False
+            seen = False
+            for it in c["main"]:
+                if it[0] == "sete":
+                    seen = True
+                if it[0] == "source" and seen:
+                    has_sete_then_source = True
+            if obs == prop:
+                if model != obs and has_sete_then_source:
+                    fl = res.extra.setdefault("findings_no_longer_reproduced", [])
+                    if "sete-cleared-by-source" not in fl:
+                        fl.append("sete-cleared-by-source")
+                continue
+            cls = "sete-cleared-by-source"
+            if obs == model and has_sete_then_source and cls in known:
+                res.known(cls, "class=%s input=%s what=%s" % (cls, json.dumps(ffiles[ix])[:500], known[cls].get("what", "")))
+                continue
+            nviol += 1
+            if nviol <= 3:
+                res.violate(kind="oracle", layer="L2b", entry="script", files=ffiles[ix], expected=prop, observed=obs, model=model,
+                            stderr=err[-300:], failing_input=True,
+                            note="set -e / function call / source: the script does not end at the first failing command with "
+                                 "its status (or runs a different command sequence)")
         c, rc, log, err = outs[0]
         res.sample({"layer": "L2", "tag": c["tag"], "script": c["files"][c["main"]], "args": c["args"],
                     "reference": repr(c["expect"]), "impl": "trace=%r status=%r" % (log, rc)})
